@@ -9,8 +9,10 @@ import gen_c14_layouts as _g14  # noqa: E402
 ENGINES = {
     # in-crate harnesses of radicle-node (hook modules `verif_kani`, cfg(kani))
     "node": {"cwd": "$REPO", "pkg": ["-p", "radicle-node", "--lib"], "slots": 4},
+    # external harness crates: path dependencies on /repo/crates/*, public API only
+    "ext_c27": {"cwd": "$VERIF/harness/ext/c27", "pkg": [], "slots": 3, "copy_lock": True},
 }
-SETUP_ENGINES = ["node"]
+SETUP_ENGINES = ["node", "ext_c27"]
 # replay include files that exist in harness sources of an engine but belong to no registered harness (yet)
 EXTRA_REPLAY_FILES = {"node": ["wire_c13", "wire_c14", "service_c29", "limiter"]}
 
@@ -146,7 +148,7 @@ PROPERTIES["C29"] = {
 _M17 = "service::limiter::verif_kani"
 _F17 = ["service::limiter::TokenBucket::{new,refill,take}", "localtime::LocalTime::{from_millis,duration_since}", "localtime::LocalDuration::as_secs"]
 _c17h = []
-for _k, _tiers, _rates in [(3, Q, ["0", "0p1", "0p2", "third", "0p5", "1", "2p5", "10"]), (4, T, ["0p2", "1"]), (5, T, ["0p2", "2p5"])]:
+for _k, _tiers, _rates in [(3, Q, ["0", "0p1", "0p2", "third", "0p5", "1", "2p5", "10"]), (4, Q, ["0p2"]), (4, T, ["1"]), (5, T, ["0p2", "2p5"])]:
     for _r in _rates:
         _c17h.append(H(f"c17_window_k{_k}_rate_{_r}", "node", _M17, "limiter", tiers=_tiers, covers=2, timeout={"quick": 600, "thorough": 3000},
             functions=_F17,
@@ -168,3 +170,24 @@ PROPERTIES["C17"] = {
 # C24 (engine S: SQL -> SMT-LIB2, see bin/sqlsmt.py)
 
 PROPERTIES["C24"] = {"kind": "smt", "harnesses": []}
+
+# ---------------------------------------------------------------------------------------------
+# C27
+
+_S27 = ["String::from_utf8_lossy -> \"\" (only builds the text of UnknownAlgorithm errors)", "zeroize::volatile_set -> no-op (wiping of spare capacity in Buffer's destructor)", "ClientStream = Canned<N>: an agent that answers every request with the given N bytes"]
+_F27 = ["radicle_ssh::agent::client::AgentClient::{request_identities,sign,prepare_sign_request,read_signature,query_extension}", "radicle_ssh::encoding::Cursor::{read_string,read_u32,read_byte}", "<radicle_crypto::PublicKey as Encodable>::{read,write}", "<radicle_crypto::Signature as Encodable>::{read,write}"]
+_c27h = []
+for _n, _t in [("len0", Q), ("len1", Q), ("len5", Q), ("len9", T), ("len13_n1", Q), ("len13_nmax", T), ("len17_n1", Q), ("len17_n2", Q), ("len24_n1", Q), ("len24_n2", Q), ("len32_n1", T)]:
+    _c27h.append(H(f"c27_identities_{_n}", "ext_c27", "harness", "ext_c27", tiers=_t, covers=1, functions=_F27, stubs=_S27,
+        bounds=f"identities answer layout {_n}: response length concrete, key count field {'concrete' if '_n' in _n else 'symbolic'}, all other bytes (blob/comment lengths, key bytes) symbolic; K = radicle_crypto::PublicKey"))
+for _n, _t in [("len0", Q), ("len1", Q), ("len5", Q), ("len9", Q), ("len13", Q), ("len16", Q), ("len24", T)]:
+    _c27h.append(H(f"c27_sign_{_n}", "ext_c27", "harness", "ext_c27", tiers=_t, covers=1, functions=_F27, stubs=_S27,
+        bounds=f"sign response of concrete length ({_n}), first byte = SIGN_RESPONSE where present, all other bytes symbolic; any 32-byte key, 2 data bytes"))
+for _n in ["c27_query_extension_len0", "c27_query_extension_len6", "c27_sign_roundtrip", "c27_public_key_roundtrip", "c27_signature_roundtrip"]:
+    _c27h.append(H(_n, "ext_c27", "harness", "ext_c27", tiers=Q, covers=1, functions=_F27, stubs=_S27,
+        bounds="all 32 key bytes / 64 signature bytes symbolic; well-formed encodings" if "roundtrip" in _n else "extension answer of the given length, all bytes symbolic"))
+PROPERTIES["C27"] = {
+    "harnesses": _c27h,
+    "outside": ["agent responses longer than 32 bytes (apart from the well-formed 88-byte sign response)", "identities answers with a symbolic key count beyond 9 bytes (count fixed to 1, 2 or u32::MAX per layout)", "SecretKey encoding (add_identity) and the Unix-socket ClientStream implementation"],
+    "assumptions": ["Kani/CBMC model of std"],
+}
